@@ -297,7 +297,7 @@ def evalCmd (body : String) : String :=
     let rdFuel := body.length + 16
     match field? "budget" es, field? "rng" es, field? "tree" es, field? "names" es with
     | some [.atom b], some [.atom r], some [t], some [nm] =>
-      (match readNat? b, readNat? r, readOp rdFuel t with
+      (match (if b == "default" then some defaultBudget else readNat? b), readNat? r, readOp rdFuel t with
        | some budget, some rng, some ast =>
          (match readVal rdFuel { heap := [], objs := [] } nm with
           | some (.ref namesAddr, st1) =>
@@ -308,7 +308,7 @@ def evalCmd (body : String) : String :=
                | none => "bad-rx"
                | some (rx, st3) =>
                  let w : World := { heap := st3.heap, vms := [], log := [], rng := rng, rx := rx, probes := probes }
-                 let c0 := initCfg w namesAddr budget ast
+                 let c0 := initCfg w [] namesAddr budget ast
                  let c := runUntil maxSteps c0
                  match c.ctl with
                  | .failed (.unmodelled why) => "U " ++ why
